@@ -483,6 +483,37 @@ theorem coef1_level0_coarse (p : Proc) (c : CvProc) (N : Nat) (hk : c.coef = coe
   rw [hv]
   simp [Stats.rabs, Stats.guard]
 
+/-- the same for the kernel as coded with up to two controls (`Stats.kernelOf`): at level 0 the coarse controls are identically
+    zero, every entry of Σ_X is 0 < 1e-12, the guard fires and the coefficients are 0 -/
+theorem kernelOf_level0_coarse (p : Proc) (c : CvProc) (N : Nat) (hk : c.coef = Stats.kernelOf c.k) (j : Nat) :
+    bC p c 0 N j = 0 := by
+  by_cases hj : j < c.k
+  swap
+  · simp [bC, coefList, hj]
+  rw [bC_eq p c 0 N j hj, hk]
+  have hx : ∀ i, xC c 0 N i = fun _ => 0 := by intro i; funext t; simp [xC]
+  have hv : Stats.varB N (fun _ => (0 : Rat)) = 0 := by
+    unfold Stats.varB
+    rw [Stats.covB_def]
+    unfold Stats.mean
+    simp [Stats.sumTo_const]
+  unfold Stats.kernelOf
+  by_cases h1 : c.k = 1
+  · rw [if_pos h1]
+    show Stats.bStar N (xC c 0 N 0) (yC p 0 N) = 0
+    rw [hx 0]
+    unfold Stats.bStar
+    rw [hv]
+    simp [Stats.rabs, Stats.guard]
+  · rw [if_neg h1]
+    by_cases h2 : c.k = 2
+    · rw [if_pos h2]
+      unfold Stats.kernel2
+      simp only [hx 0, hv]
+      have : Stats.rabs 0 < Stats.guard := by simp [Stats.rabs, Stats.guard]
+      simp [this]
+    · rw [if_neg h2]
+
 /-! ### non-vacuity: a history with one control that adds a level and returns; the adjusted arrays have the rows of the raw ones -/
 
 def demoCv : CvProc :=
